@@ -229,4 +229,131 @@ MUTANTS = [
          old="        if let Some(future) = self.future.take() {\n            tokio::spawn(future);\n        }",
          new="        if let Some(future) = self.future.take() {\n            if std::thread::panicking() { tokio::spawn(future); }\n        }",
          expect="C05.e/Guard/drop-spawns"),
+    # ------------------------------------------------------------------ C02
+    dict(id="C02.b-listener-after-unlock", prop="C02", file=CG + "computing.rs",
+         old="""                let notified_owned = entry.get().notified_owned();
+
+                drop(entry);
+                drop(self);""",
+         new="""                let computing = entry.get().clone();
+
+                drop(entry);
+                drop(self);
+                let notified_owned = computing.notified_owned();""",
+         expect="C02.b/Snapshot::computing_lock_guard/listener-before-unlock"),
+    dict(id="C02.c-D3-drain-under-shared-lock", prop="C02", file=CG + "database.rs",
+         old="""        let mut write = self.0.write();
+
+        let (large_set, result) = match &mut *write {
+            TieredStorage::Small(vec_lock) => {
+                let vec = vec_lock.get_mut();
+""",
+         new="""        let read = self.0.read();
+
+        let (large_set, result) = match &*read {
+            TieredStorage::Small(vec_lock) => {
+                let mut vec = vec_lock.write();
+""",
+         edits_extra=[("""            TieredStorage::Large(set) => return set.insert(element),
+        };
+
+        *write = TieredStorage::Large(large_set);""", """            TieredStorage::Large(set) => return set.insert(element),
+        };
+        drop(read);
+
+        *self.0.write() = TieredStorage::Large(large_set);""")],
+         expect="C02.c/lock-gap/<CompressedBackwardEdgeSet as ConcurrentSet>::insert_element"),
+    dict(id="C02.c-apply_op-writeback-snapshot", prop="C02", file="crates/storage/src/key_of_set_map/cache.rs",
+         old="""                if new_set.len() > 1024 {
+                    drop(read_entry);
+
+                    let mut write_entry = entry.write();
+                    *write_entry = Entry::TooLarge;
+                }""",
+         new="""                if new_set.len() > 1024 {
+                    drop(read_entry);
+
+                    let mut write_entry = entry.write();
+                    *write_entry = Entry::TooLarge;
+                } else if new_set.is_empty() {
+                    let fresh = Entry::InMemory(new_set.clone());
+                    drop(read_entry);
+
+                    let mut write_entry = entry.write();
+                    *write_entry = fresh;
+                }""",
+         expect="C02.c/lock-gap/CacheKeyOfSetMap::apply_op"),
+    dict(id="C02.d-pin-threshold", prop="C02", file=CG + "query_lock_manager.rs",
+         old="        Arc::strong_count(&value.0) > 1",
+         new="        Arc::strong_count(&value.0) > 2",
+         expect="C02.d/lock-pin-predicate"),
+    dict(id="C02.e-clean-without-joining-all", prop="C02", file=CG + "repair.rs",
+         old="""                                cleaned_edges.append(&mut edges);
+""",
+         new="""                                cleaned_edges.append(&mut edges);
+                                if cleaned_edges.len() > 4096 {
+                                    break;
+                                }
+""",
+         expect="C02.e/recompute_decision/clean-after-all-joined"),
+    dict(id="C02.a-guard-in-occupied-arm", prop="C02", file=CG + "computing.rs",
+         old="""                // wait for the existing backward projection to finish
+                notified.await;
+
+                return None;""",
+         new="""                // wait for the existing backward projection to finish
+                notified.await;
+
+                if caller_information.timestamp() == caller_information.timestamp() {
+                    return None;
+                }
+                let this = engine.get_read_snapshot::<Q>(caller_information_query_id).await;
+                return Some((this, BackwardProjectionLockGuard {
+                    engine: engine.clone(),
+                    query_id: caller_information_query_id_full,
+                    defused: false,
+                }));""",
+         edits_extra=[("""        let pending_backward_projection =
+            PendingBackwardProjection { notify: Arc::new(Notify::new()) };
+""", """        let pending_backward_projection =
+            PendingBackwardProjection { notify: Arc::new(Notify::new()) };
+        let caller_information_query_id = self.query_id().compact_hash_128();
+        let caller_information_query_id_full = *self.query_id();
+""")],
+         expect="C02.a/BackwardProjectionLockGuard/constructed-only-in-vacant-arm"),
+    # ------------------------------------------------------------------ C03
+    dict(id="C03.a-enqueue-unchanged-input", prop="C03", file=CG + "input_session.rs",
+         old="            if set_input_result == SetInputResult::Updated {\n                dirty_batch.write().await.push_back(query_id);\n            }",
+         new="            if set_input_result != SetInputResult::Fresh {\n                dirty_batch.write().await.push_back(query_id);\n            }",
+         nth=0, expect="C03.a/InputSession::set_input/enqueue-only-if-updated"),
+    dict(id="C03.a-refresh-always-enqueue", prop="C03", file=CG + "input_session.rs",
+         old="                            if fingerprint_diff {\n",
+         new="                            if fingerprint_diff || !results_is_small {\n",
+         edits_extra=[("                        for refresh_result in results {\n", "                        let results_is_small = results.len() < 4;\n                        for refresh_result in results {\n")],
+         expect="C03.a/InputSession::refresh/enqueue-only-if-changed"),
+    dict(id="C03.b-propagate-through-firewall", prop="C03", file=CG + "dirty_worker.rs",
+         old="                    ExecutionStyle::Projection | ExecutionStyle::Firewall\n",
+         new="                    ExecutionStyle::Projection\n",
+         expect="C03.b/process_task/stop-at-firewall-and-projection"),
+    dict(id="C03.c-firewall-always-propagates", prop="C03", file=CG + "slow_path.rs",
+         old="                if updated {\n                    write_buffer = self",
+         new="                if updated || old_kind.is_firewall() {\n                    write_buffer = self",
+         expect="C03.c/execute_query/propagate-only-if-fingerprint-changed"),
+    dict(id="C03.d-no-double-check", prop="C03", file=CG + "computing.rs",
+         old="""            if last_verified.0 == caller_information.timestamp() {
+                // no need to repair
+                return None;
+            }
+""",
+         new="""            if last_verified.0 == caller_information.timestamp() && kind.is_input() {
+                // no need to repair
+                return None;
+            }
+""",
+         expect="C03.d/computing_lock_guard/double-check"),
+    dict(id="C03.d-repair-clean-edges", prop="C03", file=CG + "repair.rs",
+         old="            return CalleeCheckDecision::NoNeed;\n",
+         new="            if kind_hint { return CalleeCheckDecision::NoNeed; }\n",
+         edits_extra=[("        let edge_is_dirty = engine.is_edge_dirty(*query_id, *callee).await;\n", "        let edge_is_dirty = engine.is_edge_dirty(*query_id, *callee).await;\n        let kind_hint = current_query_kind.is_firewall();\n")],
+         expect="C03.d/check_callee/skip-clean-edges"),
 ]
